@@ -285,7 +285,10 @@ def impl(c):
 
 
 def impl_live(c):
-    return _call(c)
+    import copy
+    obj, canon_fn = _call(c)
+    # reading a ragged result materialises it in place; read a shallow clone so the live object keeps aliasing what it aliases
+    return obj, (lambda o: canon_fn(copy.copy(o)))
 
 
 def live_cases(tier, rng):
